@@ -312,7 +312,8 @@ func c08IdPRun(c *core.Ctx, layout []c08KD, runLen int) {
 			c.Violation("C08/plaintext-not-signed", "decrypted assertion: "+err.Error(), replay)
 			return
 		}
-		if !bytes.Contains(plaintext, []byte(sess.NameID)) {
+		// compared on the parsed element, not on the bytes: character references are a legitimate way to write the same name
+		if n := ael.FindElement("./Subject/NameID"); n == nil || n.Text() != sess.NameID {
 			c.Violation("C08/plaintext-other-user", "decrypted assertion does not carry this session's NameID", replay)
 			return
 		}
